@@ -145,23 +145,44 @@ impl BackupImport {
         // Read data from the source db
         let data_source = self.read_import_data_source(account_row)?;
 
+        // Every blob must be readable by its canonical entry name
+        // otherwise reject the archive before anything is written
+        let blob_entry_name = |file: &ExternalFile| {
+            format!(
+                "{}/{}/{}/{}/{}",
+                BLOBS_DIR,
+                record.identity.account_id(),
+                file.vault_id(),
+                file.secret_id(),
+                file.file_name(),
+            )
+        };
+        if let Some(files) = self.blobs.get(record.identity.account_id()) {
+            let entries = self.zip_reader.inner().file().entries();
+            for file in files {
+                let entry_name = blob_entry_name(file);
+                let exists = entries.iter().any(|entry| {
+                    entry.filename().as_str().ok() == Some(&entry_name[..])
+                });
+                if !exists {
+                    return Err(Error::NoBlobEntry(entry_name));
+                }
+            }
+        }
+
         // Write data to the target db
         self.write_import_data_source(data_source)?;
 
         // Extract blobs for this account
         if let Some(files) = self.blobs.get(record.identity.account_id()) {
             for file in files {
-                let entry_name = format!(
-                    "{}/{}/{}/{}/{}",
-                    BLOBS_DIR,
-                    record.identity.account_id(),
-                    file.vault_id(),
-                    file.secret_id(),
-                    file.file_name(),
-                );
+                let entry_name = blob_entry_name(file);
                 let target = account_paths.into_file_path(file);
-                let blob_buffer =
-                    self.zip_reader.by_name(&entry_name).await?.unwrap();
+                let blob_buffer = self
+                    .zip_reader
+                    .by_name(&entry_name)
+                    .await?
+                    .ok_or_else(|| Error::NoBlobEntry(entry_name.clone()))?;
 
                 if let Some(parent) = target.parent() {
                     vfs::create_dir_all(parent).await?;
